@@ -661,6 +661,13 @@ def run_check(prop, tier, seed, replay):
                 for sc in shapes.generate(seed, 18 if tier == "quick" else 150):
                     f.write(json.dumps(sc) + "\n")
             script_files.append(("shapes", pth, 12))
+            if prop in ("C03", "C08", "C14") or tier == "thorough":
+                # (32-41 objects make the judge slow: quick tier only where tables matter most)
+                pth = os.path.join(wd, "wideshapes.ndjson")
+                with open(pth, "w") as f:
+                    for sc in shapes.wide_unlink(seed):
+                        f.write(json.dumps(sc) + "\n")
+                script_files.append(("wideshapes", pth, 41))
         # 3b'. long repetitive histories on three objects (tools/longhist.py)
         if "core" in P["fams"]:
             import longhist
